@@ -268,3 +268,52 @@ def incr(version_str, pattern, flags, date, today):
         except (TypeError, ValueError, OverflowError, KeyError, IndexError, AssertionError) as ex:
             return {"err": exc_name(ex)}
     return {"ok": r}
+
+
+# ---- rewriting ---------------------------------------------------------------
+
+def _compile_pats(pairs):
+    from bumpver import v2patterns
+    return [v2patterns.compile_pattern(vp, raw) for vp, raw in pairs]
+
+
+def rewrite_content(pairs, vj, content):
+    from bumpver import v2rewrite, rewrite
+    import re
+    _quiet()
+    try:
+        pats = _compile_pats(pairs)
+        rfd = v2rewrite.rfd_from_content(pats, vinfo_from_json(vj), content)
+        return {"ok": rfd.line_sep.join(rfd.new_lines)}
+    except rewrite.NoPatternMatch:
+        return {"err": "NoPatternMatch"}
+    except re.error:
+        return {"unsupported": 1}
+    except (ValueError, KeyError, IndexError, TypeError) as ex:
+        return {"err": exc_name(ex)}
+
+
+def rewrite_files_in(dirpath, file_patterns, vj):
+    """v2rewrite.rewrite_files on real files under dirpath; file_patterns: [[path, [[vp, raw], …]], …]"""
+    from bumpver import v2rewrite, rewrite
+    import collections, re
+    _quiet()
+    old = os.getcwd()
+    os.chdir(dirpath)
+    try:
+        fp = collections.OrderedDict()
+        for path, pairs in file_patterns:
+            fp.setdefault(path, []).extend(_compile_pats(pairs))
+        try:
+            v2rewrite.rewrite_files(fp, vinfo_from_json(vj))
+            return "ok"
+        except rewrite.NoPatternMatch:
+            return "NoPatternMatch"
+        except OSError:
+            return "OSError"
+        except re.error:
+            return "unsupported"
+        except (ValueError, KeyError, IndexError, TypeError) as ex:
+            return exc_name(ex)
+    finally:
+        os.chdir(old)
